@@ -26,6 +26,8 @@ class FlatMapFuture(MapFuture):
 
         self.__flattened = True
         self._map_fn = lambda x: x
+        # error_fn applies to the input only, not to the flattened future
+        self._error_fn = None
         self._set_delegate(result)
 
 
